@@ -7,6 +7,7 @@ import (
 	"runtime"
 	"runtime/debug"
 	"strconv"
+	"strings"
 	"sync/atomic"
 	"testing"
 	"time"
@@ -30,6 +31,8 @@ type Summary struct {
 	LastSeed     uint64          `json:"last_seed"`
 	WallS        float64         `json:"wall_s"`
 	Violation    *FoundViolation `json:"violation,omitempty"`
+	// Known holds the first occurrence of each known finding met (the batch goes on past them).
+	Known []*FoundViolation `json:"known,omitempty"`
 }
 
 // FoundViolation is a violation with the scenario that produced it.
@@ -212,6 +215,15 @@ func workerBatch(t *testing.T, fam *Family, out string) {
 
 	sum := &Summary{Property: fam.ID, Worker: w, Faults: map[string]int{}, Probes: map[string]int{}, YieldHits: map[string]int{}}
 	sigs := map[uint64]struct{}{}
+	// signatures of known findings (from /verif/known_findings.txt, passed by the parent):
+	// a violation whose class starts with one of them is recorded once and the batch goes on
+	var known []string
+	for _, k := range strings.Split(os.Getenv("VSIM_KNOWN"), "|") {
+		if k = strings.TrimSpace(k); k != "" {
+			known = append(known, k)
+		}
+	}
+	knownSeen := map[string]bool{}
 	for k := 0; k < maxRuns; k++ {
 		if time.Since(start) > budget {
 			break
@@ -250,6 +262,21 @@ func workerBatch(t *testing.T, fam *Family, out string) {
 			sum.Samples = append(sum.Samples, map[string]any{"seed": seed, "scenario": json.RawMessage(scRaw), "summary": res.Sample})
 		}
 		if res.Violation != nil {
+			isKnown := ""
+			for _, k := range known {
+				if strings.HasPrefix(res.Violation.Class, k) {
+					isKnown = k
+				}
+			}
+			if isKnown != "" {
+				sum.Probes["known_finding_hits"]++
+				if !knownSeen[isKnown] {
+					knownSeen[isKnown] = true
+					sum.Known = append(sum.Known, &FoundViolation{Property: fam.ID, Seed: seed, Scenario: scRaw,
+						Class: res.Violation.Class, Detail: res.Violation.Detail, Tail: res.Tail})
+				}
+				continue
+			}
 			sum.Violation = &FoundViolation{
 				Property: fam.ID, Seed: seed, Scenario: scRaw,
 				Class: res.Violation.Class, Detail: res.Violation.Detail, Tail: res.Tail,
